@@ -82,6 +82,9 @@ func main() {
 					if nw, ok := asg[x.Tok]; ok {
 						emit(x.TokPos, len(x.Tok.String()), nw, "opassign "+x.Tok.String()+"→"+nw)
 					}
+					if os.Getenv("MUTGEN_B") != "" && x.Tok != token.DEFINE {
+						emit(x.Pos(), int(x.End()-x.Pos()), "", "delete assignment")
+					}
 				case *ast.UnaryExpr:
 					if x.Op == token.NOT || x.Op == token.SUB {
 						emit(x.OpPos, 1, "", "drop unary "+x.Op.String())
@@ -97,6 +100,20 @@ func main() {
 						}
 					case token.FLOAT:
 						emit(x.ValuePos, len(x.Value), "(2*"+x.Value+")", "float*2")
+						if os.Getenv("MUTGEN_B") != "" {
+							emit(x.ValuePos, len(x.Value), "(1+"+x.Value+")", "float+1")
+						}
+					}
+				case *ast.IfStmt:
+					if os.Getenv("MUTGEN_B") != "" {
+						emit(x.Cond.Pos(), int(x.Cond.End()-x.Cond.Pos()), "true", "cond→true")
+						emit(x.Cond.Pos(), int(x.Cond.End()-x.Cond.Pos()), "false", "cond→false")
+					}
+				case *ast.ExprStmt:
+					if os.Getenv("MUTGEN_B") != "" {
+						if _, isCall := x.X.(*ast.CallExpr); isCall {
+							emit(x.Pos(), int(x.End()-x.Pos()), "", "delete call stmt")
+						}
 					}
 				case *ast.BranchStmt:
 					if x.Tok == token.BREAK && x.Label == nil {
